@@ -1,5 +1,5 @@
 SPECIFICATION Spec
 INVARIANT OnlyTheNegotiatedHandler NoHandlerWithoutPass RetryNeedsValidatedAccept EstablishedReachesHandler FilterAcceptReaches
-INVARIANT EstablishedOnlyIfAllAccept AcceptOnlyIfAllAccept BeforeRejectStops PreconditionsGate ShortCircuit RejectCodeSeen ClosedGate Decided
+INVARIANT EstablishedOnlyIfAllAccept AcceptOnlyIfAllAccept BeforeRejectStops PreconditionsGate ShortCircuit RejectCodeSeen ClosedGate PathsWellFormed Decided
 CHECK_DEADLOCK FALSE
 CONSTANT Scenarios <- FamFull
